@@ -15,6 +15,22 @@ KNOWN = os.path.join(ROOT, "KNOWN_FINDINGS.txt")
 OUT = os.environ.get("SEGVC_OUT", ROOT)
 
 
+TRUSTED_TEXT = {
+    "E1": "E1 (DESIGN.md section 3): on one event loop no other task or callback runs between two suspension points of a coroutine nor during a synchronous call",
+    "E2": "E2: a task awaiting an asyncio future resumes only when it is done - with its result, its exception, CancelledError because the future was cancelled, or CancelledError although the future already has a result (Task.cancel arrived before the wake-up ran); the environment may cancel a pending future at any time",
+    "E3": "E3: Task.cancel() cancels a pending waiter future or sets _must_cancel; CancelledError enters a coroutine only at a suspension point",
+    "E7": "E7: asyncio.Event.wait() returns only if the flag is set, set() wakes all current waiters, no spurious wake-ups; the engine's z3 models of deque / set / OrderedDict are taken to behave like CPython's (not cross-validated mechanically)",
+    "A-borrower": "A-borrower: one borrower identity is used by at most one in-flight acquire_on_behalf_of and is not released by a third party while that call is suspended (precondition taken from the call sites, unchecked)",
+}
+ALWAYS_TRUSTED = [
+    "the segvc engine itself (AST lowering, path enumeration, havoc/frame handling) - exercised by the seeded-edit self-test, not proved",
+    "z3 as the only back end (stage 1 E-matching, stage 2 MBQI)",
+    "Python int/float as mathematical integers/reals with two opaque infinities (no NaN, no rounding)",
+    "extraction drops annotations, docstrings, cast(), `from None`; sys.version_info folded for 3.12 (section 2.2 of DESIGN.md)",
+    "liveness (a resolved future/event eventually resumes its waiter) is the event loop's, not proved",
+]
+
+
 def load_known():
     out = []
     if not os.path.exists(KNOWN):
@@ -120,7 +136,7 @@ def finish(prop, tier, results, wall, verbose=False, partial=False):
             "checker_cmd": f"python3-vt -m segvc check {prop} --tier {tier}",
             "backends": {"z3": sum(e["instances"] for e in by_name.values())},
             "solver_seconds": round(solver_s, 3),
-            "trusted_base": sorted(trusted),
+            "trusted_base": [TRUSTED_TEXT.get(t, t) for t in sorted(trusted)] + ALWAYS_TRUSTED,
             "functions_under_contract": functions,
             "refuted": [e["name"] for e in refuted],
             "known_findings_matched": [k["obligation"] for k in known_hits],
@@ -130,7 +146,7 @@ def finish(prop, tier, results, wall, verbose=False, partial=False):
             "samples": samples,
             "by_kind": _count_kinds(by_name),
         },
-        "assumptions": sorted(trusted),
+        "assumptions": [TRUSTED_TEXT.get(t, t) for t in sorted(trusted)] + ALWAYS_TRUSTED,
         "wall_s": round(wall, 3),
         "violations": violations,
     }
